@@ -503,6 +503,56 @@ func c07R2(c *Check) {
 					c.Obl(notMinusOne(fs, h) && okQ, "C07.R2", key, where, "prefix up to the first '#', used under index('#') != -1 and no '?' before it",
 						"prefix slice at the '#' index is used without the facts index('#') != -1 and index('?') == -1")
 				default:
+					// the bound is chosen by a branch (`end := len(s); if hash != -1 { end = hash }; s[:end]`): each alternative is
+					// judged under the facts of the edge that selects it, together with the facts at the return
+					okAll, nAlt := true, 0
+					for _, ha := range phiAlternatives(fn, h, x) {
+						nAlt++
+						cfs := unionFacts(fs, ha.Facts)
+						hv := resolveCell(stripConv(ha.V))
+						isLen := false
+						if lc, isC := hv.(*ssa.Call); isC {
+							if bi, isB := lc.Call.Value.(*ssa.Builtin); isB && bi.Name() == "len" && len(lc.Call.Args) == 1 && resolveCell(stripConv(lc.Call.Args[0])) == ssa.Value(in) {
+								isLen = true
+							}
+						}
+						qMinus := false
+						hMinus := false
+						for cond := range cfs {
+							if val, _, _, isCmp := cmpWithConstInt(cond); isCmp {
+								for _, l := range Leaves(val, leafOpts{}) {
+									if interIdx(l) && isMinusOne(cfs, val) {
+										qMinus = true
+									}
+									if hashIdx(l) && isMinusOne(cfs, val) {
+										hMinus = true
+									}
+								}
+							}
+						}
+						switch {
+						case isLen:
+							if !(qMinus && hMinus) {
+								okAll = false
+							}
+						case interIdx(hv):
+							if !notMinusOne(cfs, hv) {
+								okAll = false
+							}
+						case hashIdx(hv):
+							if !(notMinusOne(cfs, hv) && qMinus) {
+								okAll = false
+							}
+						default:
+							okAll = false
+						}
+					}
+					if okAll && nAlt >= 2 {
+						for k := 1; k <= nAlt; k++ {
+							c.Pass("C07.R2", fmt.Sprintf("%s/end#%d", key, k), where, "prefix whose end is chosen by a branch: this alternative (whole input / '#' index / '?' index) is used under its own facts")
+						}
+						continue
+					}
 					var ds []string
 					for _, l := range leaves {
 						ds = append(ds, descDepth(l, 3))
